@@ -30,7 +30,7 @@ var (
 	dbRows    []dbRow
 	dbCursor  int
 	dbWrites  int
-	dbFailing bool // when set, every write fails (fault outside C03's quantifier; used for C01 only)
+	dbFailing bool // when set, every write fails (the "dbfail" case of the step harness)
 )
 
 func dbReset() { dbRows, dbCursor, dbWrites, dbFailing = nil, -1, 0, false }
